@@ -64,7 +64,61 @@ Section Extrap.
       end
     end.
 
+  (** the same computation with the Lagrange weights of the node list handed in ([ws], one per node) and the data to
+      extrapolate ([ys'] = ys, or their logarithms) prepared by the caller: with [ws := map (lag0_weight xs) xs] and
+      [ys' := if logm then map nln ys else ys] this IS [extrap_full] (Proofs/ExtrapAll.v, [extrap_full_pre_eq], for every
+      number type).  Used by the batched correspondence check, where many data sets share one node list. *)
+  Definition lagrange0_w (ws ys : list F) : F := nsum (map (fun p => fst p * snd p) (combine ws ys)).
+  Definition extrap_entry_w (xs ws ys : list F) : option F :=
+    match length xs, Nat.eqb (length xs) (length ys) with
+    | _, false => None
+    | 1%nat, _ => Some (hd n0 ys)
+    | 2%nat, _ | 3%nat, _ | 4%nat, _ | 5%nat, _ | 6%nat, _ => Some (lagrange0_w ws ys)
+    | _, _ => None
+    end.
+  Definition extrap_full_pre (logm : bool) (fail_mag : F) (xs ws ys ys' : list F) : option F :=
+    match extrap_entry_w xs ws ys' with
+    | None => None
+    | Some e =>
+      let ex := if logm then nexp e else e in
+      match length xs with
+      | 1%nat => Some ex
+      | _ => let best := nth (argmin xs) ys n0 in
+             Some (if far fail_mag ex best then best else ex)
+      end
+    end.
+
   (** polynomial in the grid spacing, coefficients lowest degree first *)
   Fixpoint peval (cs : list F) (x : F) : F :=
     match cs with [] => n0 | c :: t => c + x * peval t x end.
+
+  (** ** the wrapped function as an object that is USED REPEATEDLY
+      [make_extrap_func] captures [extrap_x_l] once: the store is [Some xs] for an explicit list, [None] when the
+      x values are read off the results of each call ([.extrap_x]).  One call receives the results of the model in the
+      order of the pts list of THAT call ([snd call]) and the extrap_x they carry ([fst call]); it returns one
+      extrapolated entry and the store it leaves behind.  [step] is the extrapolation proper ([extrap_entry], or
+      [extrap_full logm fail_mag]).  The code only READS the captured list: the store is handed on unchanged. *)
+  Definition call_xs (store : option (list F)) (attr_xs : list F) : list F :=
+    match store with Some xs => xs | None => attr_xs end.
+  Definition wrapped_call (step : list F -> list F -> option F) (store : option (list F))
+             (call : list F * list F) : option F * option (list F) :=
+    (step (call_xs store (fst call)) (snd call), store).
+  Fixpoint run_calls (step : list F -> list F -> option F) (store : option (list F))
+           (calls : list (list F * list F)) : list (option F) * option (list F) :=
+    match calls with
+    | [] => ([], store)
+    | c :: t => let rs := wrapped_call step store c in
+                let rest := run_calls step (snd rs) t in
+                (fst rs :: fst rest, snd rest)
+    end.
+  (** what a wrapper that rewrites the captured list in place (sort, reverse, ...: [g]) after using it would be;
+      only used to state that such a wrapper is NOT exact from the second call on (Props/C07.v). *)
+  Fixpoint run_calls_rewriting (g : list F -> list F) (step : list F -> list F -> option F)
+           (store : option (list F)) (calls : list (list F * list F)) : list (option F) * option (list F) :=
+    match calls with
+    | [] => ([], store)
+    | c :: t => let r := step (call_xs store (fst c)) (snd c) in
+                let rest := run_calls_rewriting g step (option_map g store) t in
+                (r :: fst rest, snd rest)
+    end.
 End Extrap.
